@@ -68,6 +68,40 @@ func EnvRacePass() int {
 			}
 		}
 	}
+	// header sets that must be refused although their signature is valid (C07): COSE times written as tag-0 text, an expiry equal to
+	// the signing time, a missing scheme - next to their conformant twins
+	for _, media := range []string{envenc.MediaJWS, envenc.MediaCOSE} {
+		for _, dn := range []string{"", "cose-time-tag0-text", "cose-expiry-tag0-text", "expiry=signing", "scheme-missing"} {
+			cont := baseContent(envenc.SchemeX509)
+			cont.Expiry = cont.SigningTime.Add(48 * time.Hour)
+			spec := newEnvSpec(media, cont, "p256-e")
+			if dn != "" {
+				var dev *envDev
+				for i := range c07Devs {
+					if c07Devs[i].name == dn && (c07Devs[i].format == "" || c07Devs[i].format == mediaShort(media)) {
+						dev = &c07Devs[i]
+					}
+				}
+				if dev == nil {
+					continue
+				}
+				dev.apply(spec)
+			}
+			env, _, _, valid := spec.encode(nil, "")
+			if !valid {
+				continue
+			}
+			ct, perr, verr, pan := parseVerify(media, env)
+			it := item{desc: fmt.Sprintf("%s header set [%s]", mediaShort(media), dn), media: media, env: env, accept: perr == nil && verr == nil && pan == nil}
+			if it.accept {
+				it.alg = ct.SignerInfo.SignatureAlgorithm
+			}
+			if it.accept != (dn == "") {
+				fmt.Printf("ENVRACE-MISMATCH sequential: %s accepted=%v\n", it.desc, it.accept)
+			}
+			items = append(items, it)
+		}
+	}
 	total := 0
 	for _, callers := range []int{2, 4, 8, 16, 32} {
 		var wg sync.WaitGroup
